@@ -22,6 +22,38 @@ import (
 	"nhooyr.io/websocket"
 )
 
+type c05failingLog struct{ ok int }
+
+func (l *c05failingLog) Write(p []byte) (int, error) {
+	if l.ok > 0 {
+		l.ok--
+		return len(p), nil
+	}
+	return 0, io.ErrClosedPipe
+}
+
+// c05loggerRead: a stanza that was completely taken from the socket is still delivered when the traffic log cannot be
+// written (the log file fails at its k-th write).
+func c05loggerRead(k int) string {
+	in := `<message xmlns="jabber:client" id="l1"><body>logged</body></message>`
+	rw := newStreamLogger(struct {
+		io.Reader
+		io.Writer
+	}{io.MultiReader(strings.NewReader("<stream:stream xmlns='jabber:client' xmlns:stream='http://etherx.jabber.org/streams' id='x'>"), strings.NewReader(in)), io.Discard}, &c05failingLog{ok: k})
+	d := xml.NewDecoder(rw)
+	if _, err := stanza.InitStream(d); err != nil {
+		return "" // the failure hit the stream header: nothing was complete yet
+	}
+	p, err := stanza.NextPacket(d)
+	if err != nil {
+		return fmt.Sprintf("traffic log fails at write %d: the stanza read from the socket is lost (%v)", k+1, err)
+	}
+	if m, ok := p.(stanza.Message); !ok || m.Id != "l1" {
+		return fmt.Sprintf("traffic log fails at write %d: got %T", k+1, p)
+	}
+	return ""
+}
+
 // c05wsFragments: the real websocket transport against a real websocket server that sends each stanza as ONE message
 // cut into the given number of frames; every stanza must come out of NextPacket, in order.
 func c05wsFragments(frames int) string {
@@ -283,6 +315,12 @@ func TestVerifReplay_C05(t *testing.T) {
 				report("WebsocketTransport.Read: %d-byte frame through %d-byte reads delivered %q, want %q", frame, buf, out, string(data)+"|")
 			}
 			cancel()
+		}
+	}
+	for k := 3; k < 7; k++ { // each Read makes three log writes; the stream header is the first Read, the stanza the second
+		cases++
+		if m := c05loggerRead(k); m != "" {
+			report("%s", m)
 		}
 	}
 	for _, frames := range []int{1, 2, 5} {
